@@ -46,6 +46,8 @@ struct PWorld {
   bool stop_begun[2] = {false, false};
   int call_payload = 1;            // the caller's argument (an lvalue that outlives the call)
   bool call_fn_ran = false;        // the caller's payload was handed to an acceptor function
+  std::atomic<int> fn_epoch{0};    // 1 once the caller's function has run (gated threads wait on it)
+  std::atomic<int> acc_started{0}; // 1 once the acceptor's start() has returned
   int accepted = 0;                // payload the async_accept received (0 = none)
   int immediate = 0;               // payload a try_accept received
   bool report_forwarder = false;   // regression monitors for the (fixed) completion_forwarder defect, on in the cancel scenarios
@@ -55,7 +57,10 @@ struct PWorld {
   template <bool Stoppable> void call() {
     owner[0] = rt::self();
     rt::obs("call.begin");
-    auto fn = [this](auto& acceptorFn) noexcept(false) { call_fn_ran = true; acceptorFn(std::move(call_payload)); };
+    auto fn = [this](auto& acceptorFn) noexcept(false) {
+      call_fn_ran = true; fn_epoch.store(1, std::memory_order_release);
+      acceptorFn(std::move(call_payload));
+    };
     auto op = unifex::connect(pass.async_call(std::move(fn)), CallRecv<Stoppable>{this});
     unifex::start(op);
     rt::obs("call.started");
@@ -66,6 +71,7 @@ struct PWorld {
     rt::obs("accept.begin");
     auto op = unifex::connect(pass.async_accept(), AcceptRecv<Stoppable>{this});
     unifex::start(op);
+    acc_started.store(1, std::memory_order_release);
     rt::obs("accept.started");
     ctx[1].drive_until([&] { return completions[1] > 0; });
   }
@@ -100,6 +106,8 @@ struct PWorld {
     return ok;
   }
   bool served() const { return call_fn_ran || handed_by_try; }
+  void await_fn_ran() { while (fn_epoch.load(std::memory_order_acquire) == 0) {} }
+  void await_acceptor_started() { while (acc_started.load(std::memory_order_acquire) == 0) {} }
   void await_expecting_call() { while (!pass.is_expecting_call()) {} }
   void await_expecting_accept() { while (!pass.is_expecting_accept()) {} }
   void finish(bool caller, bool acceptor) {
@@ -202,6 +210,29 @@ SCENARIO(pass_try_accept) {
   rt::join(t1); rt::join(t2);
   if (w.immediate != 1 || w.outcome[0] != 1) rt::fail("try_accept received %d, call outcome %d", w.immediate, w.outcome[0]);
   w.finish(true, false);
+}
+
+// A stop request for a call that has ALREADY been claimed, while another waiter parks in the slot
+// (model: cfgLateStop).  T3 claims the parked cancellable call with try_accept; as soon as the
+// caller's function has run, the acceptor (T2) parks in the idle slot and T4 requests stop for the
+// call, racing with the rest of the rendezvous.  The late stop() must leave the slot alone.
+SCENARIO(pass_late_stop) {
+  PWorld w;
+  int t1 = rt::spawn([&] { w.call<true>(); });
+  int t2 = rt::spawn([&] { w.await_fn_ran(); w.accept<false>(); });
+  int t3 = rt::spawn([&] { w.await_expecting_accept(); if (!w.try_accept()) rt::fail("try_accept failed although a call was waiting"); });
+  int t4 = rt::spawn([&] { w.await_fn_ran(); w.stop(0); });
+  rt::join(t3); rt::join(t4); rt::join(t1);
+  // the call is finished, nobody else can have claimed the acceptor: once its start() has returned it
+  // IS parked, so the pass must expect a call and a try_call must reach it
+  w.await_acceptor_started();
+  if (w.completions[1] == 0 && !w.pass.is_expecting_call())
+    rt::fail("an async_accept is parked but the pass does not expect a call: the waiter was wiped out of the slot");
+  else if (!w.try_call()) rt::fail("try_call failed although an accept was waiting");
+  rt::join(t2);
+  if (w.outcome[0] != 1 || w.immediate != 1) rt::fail("late stop: call outcome %d, try_accept received %d", w.outcome[0], w.immediate);
+  if (w.accepted != 2) rt::fail("late stop: the acceptor received payload %d instead of 2", w.accepted);
+  w.finish(true, true);
 }
 
 RT_MAIN()
